@@ -3,3 +3,5 @@ import Audit.C11
 import Audit.C20
 import Audit.C15
 import Audit.C12
+import Audit.C13
+import Audit.C14
